@@ -31,6 +31,33 @@ Theorem C11_no_panic_partial : forall c tr s, close_idem c = true -> run c (init
 Proof. exact no_panic. Qed.
 Print Assumptions C11_no_panic_partial.
 
+(* packets read or written (and any other call) after a Close returned return without parking *)
+Theorem C11_calls_after_close_return_partial : forall c tr s t o s', close_safe c = true -> chan_safe c = true ->
+  run c (init c) tr = Some s -> close_ret s = true ->
+  step c s (Call t o) = Some s' -> bfind t (blocked s') = None.
+Proof. exact calls_after_close_return. Qed.
+Print Assumptions C11_calls_after_close_return_partial.
+
+(* BindRTCPWriter/BindRTCPReader/Bind*/Unbind* never park, whatever calls preceded them; a Close parks
+   only on the WaitGroup, from which C11_no_stranded_caller_partial always releases it *)
+Theorem C11_lifecycle_calls_never_park_partial : forall c tr s t o s', bind_nonblocking c = true ->
+  run c (init c) tr = Some s -> (match o with OTraffic _ | OClose => False | _ => True end) ->
+  step c s (Call t o) = Some s' -> bfind t (blocked s') = None.
+Proof. exact lifecycle_calls_never_park. Qed.
+Print Assumptions C11_lifecycle_calls_never_park_partial.
+
+Theorem C11_close_parks_only_on_wg : forall c tr s t s' w, run c (init c) tr = Some s ->
+  step c s (Call t OClose) = Some s' -> bfind t (blocked s') = Some w -> w = WWg.
+Proof. exact close_parks_only_on_wg. Qed.
+Print Assumptions C11_close_parks_only_on_wg.
+
+Theorem C11_bind_nonblocking_instances :
+  forallb bind_nonblocking [nack_generator_cfg; nack_responder_cfg; report_receiver_cfg; report_sender_cfg;
+    twcc_sender_cfg; rfc8888_cfg; intervalpli_cfg; stats_cfg; packetdump_cfg; pacing_cfg; gcc_cfg;
+    jitterbuffer_cfg; flexfec_cfg; chain_cfg] = true.
+Proof. exact bind_nonblocking_instances. Qed.
+Print Assumptions C11_bind_nonblocking_instances.
+
 (* After Unbind x returned nothing about x is written except what was already in flight
    (snapshot of a tick taken, or request queued, before Unbind returned) ... *)
 Theorem C11_unbind_stops_partial : forall c tr s, unbind_safe c = true -> run c (init c) tr = Some s ->
@@ -50,7 +77,7 @@ Theorem C11_unbind_releases_partial : forall c tr s x, f_table c = TPerSsrc -> f
 Proof. exact unbind_releases. Qed.
 Print Assumptions C11_unbind_releases_partial.
 
-(* ... and binding the SSRC again starts from fresh state *)
+(* ... and binding the SSRC again starts from fresh state (Bind installs a fresh entry, or Unbind removed the old one) *)
 Theorem C11_rebind_fresh_partial : forall c tr s x t s', rebind_safe c = true -> f_table c <> TNone ->
   run c (init c) tr = Some s -> In x (dead s) ->
   step c s (Call t (OBind x)) = Some s' -> tfind (key c x) (table s') = Some 0%nat.
@@ -65,7 +92,8 @@ Theorem C11_safe_instances :
   safe_cfg report_receiver_cfg = true /\ safe_cfg report_sender_cfg = true /\
   safe_cfg twcc_sender_cfg = true /\ safe_cfg intervalpli_cfg = true /\
   safe_cfg packetdump_cfg = true /\ safe_cfg pacing_cfg = true /\
-  safe_cfg flexfec_cfg = true /\ safe_cfg chain_cfg = true /\ safe_cfg gcc_cfg = true.
+  safe_cfg flexfec_cfg = true /\ safe_cfg chain_cfg = true /\ safe_cfg gcc_cfg = true /\
+  safe_cfg stats_cfg = true.
 Proof. exact safe_instances. Qed.
 Print Assumptions C11_safe_instances.
 
@@ -105,10 +133,10 @@ Theorem C11_rfc8888_unbind_refuted : exists tr s,
 Proof. exact rfc8888_unbind_refuted. Qed.
 Print Assumptions C11_rfc8888_unbind_refuted.
 
-(* known (F38): stats keeps the recorder after Unbind and reuses it on the next Bind *)
+(* fixed (F38): stats before its fix kept the recorder after Unbind and reused it on the next Bind *)
 Theorem C11_stats_rebind_refuted : exists tr s t s',
-  run stats_cfg (init stats_cfg) tr = Some s /\ In 1 (dead s) /\ tfind 1 (table s) <> None /\
-  step stats_cfg s (Call t (OBind 1)) = Some s' /\ tfind 1 (table s') <> Some 0%nat.
+  run stats_unfixed_cfg (init stats_unfixed_cfg) tr = Some s /\ In 1 (dead s) /\ tfind 1 (table s) <> None /\
+  step stats_unfixed_cfg s (Call t (OBind 1)) = Some s' /\ tfind 1 (table s') <> Some 0%nat.
 Proof. exact stats_rebind_refuted. Qed.
 Print Assumptions C11_stats_rebind_refuted.
 
@@ -136,6 +164,18 @@ Theorem C11_gcc_double_close_refuted : exists tr s,
   run gcc_unfixed_cfg (init gcc_unfixed_cfg) tr = Some s /\ panicked s = true.
 Proof. exact gcc_unfixed_double_close_panics. Qed.
 Print Assumptions C11_gcc_double_close_refuted.
+
+(* fixed: nack responder before its fix - one unwaited goroutine per incoming NACK: Close returns while a
+   resend goroutine is alive, which writes afterwards; and a NACK read after Close is still answered *)
+Theorem C11_nack_responder_close_refuted : exists tr s,
+  run nack_responder_unfixed_cfg (init nack_responder_unfixed_cfg) tr = Some s /\ close_ret s = true /\ late_close s <> 0%nat.
+Proof. exact nack_responder_unfixed_close_refuted. Qed.
+Print Assumptions C11_nack_responder_close_refuted.
+
+Theorem C11_nack_responder_serves_after_close_refuted : exists tr s,
+  run nack_responder_unfixed_cfg (init nack_responder_unfixed_cfg) tr = Some s /\ close_ret s = true /\ loops s <> [].
+Proof. exact nack_responder_unfixed_serves_after_close. Qed.
+Print Assumptions C11_nack_responder_serves_after_close_refuted.
 
 (* the oracle applied to the implementation's observations reports no failure code exactly when
    every clause holds on them *)
